@@ -192,7 +192,11 @@ def class_table():
         ('type_vars_fifo = getattr(type(self), TYPE_VAR_ATTR_NAME, dict())', False)], 'type_vars: stored table')
     same(c.body[1], 'type_vars_generics = check_instance_of_generic_class_and_get_type_vars(instance=self)', 'type_vars: generics')
     st = c.body[2]
-    if not (isinstance(st, ast.Expr) and isinstance(st.value, ast.Call) and is_name(st.value.func, 'setattr') and len(st.value.args) == 3
+    if isinstance(st, ast.Expr) and isinstance(st.value, ast.Call) and is_name(st.value.func, 'setattr'):
+        bad('type_vars: the table is stored with setattr(), which goes through a __setattr__ the class defines itself (pre-fix shape of '
+            'K-C08-table-stored-through-user-setattr: frozen dataclass above @pedantic_class -> FrozenInstanceError, own __setattr__ -> RecursionError)')
+    if not (isinstance(st, ast.Expr) and isinstance(st.value, ast.Call) and dump(st.value.func) == dump(expr('object.__setattr__'))
+            and len(st.value.args) == 3 and not st.value.keywords
             and dump(st.value.args[1]) == dump(expr('TYPE_VAR_ATTR_NAME')) and isinstance(st.value.args[2], ast.Dict)
             and all(k is None for k in st.value.args[2].keys)):
         bad('type_vars: merge statement not recognised')
@@ -203,7 +207,7 @@ def class_table():
         if not (is_name(v) and v.id in names):
             bad('type_vars: unknown part in the merged table')
         order.append(names[v.id])
-    fresh = variant(c.orelse[0], [('setattr(self, TYPE_VAR_ATTR_NAME, t_vars)', True)], 'type_vars: non-generic branch')
+    fresh = variant(c.orelse[0], [('object.__setattr__(self, TYPE_VAR_ATTR_NAME, t_vars)', True)], 'type_vars: non-generic branch')
     ret = variant(fb[2], [('return getattr(self, TYPE_VAR_ATTR_NAME)', True)], 'type_vars: result')
     return {'on_instance': on_instance and on_instance2 and ret, 'order': order, 'nongeneric_fresh': fresh}, provenance(CD, src, outer)
 
